@@ -671,6 +671,10 @@ class CompilerPassGenerateCode(CompilerPass):
     ):
         data = node._ndata
         sym = self.get_intermediate_symbol(node)
+        if sym is index:
+            # 'i = [..][i]': the instructions below still read the index after
+            # the first of them has written the result
+            sym = self.get_intermediate_symbol(node, True)
 
         n = len(array)
 
